@@ -18,7 +18,7 @@ PROPS["C16"] = dict(
               "with ROATable.List / GetServers / ListRpkiTable / ListRpki / ListPath after every step of generated RTR histories (server unit)",
     rule="table case = one ROA history (0-30 records aimed at, 1-3 sources) + 50 routes; non-trivial iff >=1 route has a covering record; distinct by "
          "(record shape multiset, verdict signature). rtr case = one history of 8-48 steps over 1-3 caches (white box 60% / loopback TCP 40%); "
-         "non-trivial iff the table changed at least twice; distinct by (transport, step-kind sequence). api case = one BgpServer with 1-2 loopback "
+         "incl. cache restarts (reconnect + new session id + smaller record set) and withdrawals of records that differ in one field (prefix length with the same base address, max-length, AS) from announced or still-buffered ones; non-trivial iff the table changed at least twice; distinct by (transport, step-kind sequence). api case = one BgpServer with 1-2 loopback "
          "caches: load, routes, incremental updates, soft reset, DeleteRpki; distinct by trace",
     assumptions=["origin AS as in RFC 6811 sec. 2: last AS of a path ending in AS_SEQUENCE; local AS for an empty path or one ending in confederation segments "
                  "(only confederation-only paths are generated); NotFound for a path ending in AS_SET",
@@ -30,7 +30,8 @@ PROPS["C16"] = dict(
     must_count=["v_routes", "v_cover_1", "v_cover_many", "v_as0_covering", "v_as_match_but_too_long", "v_condition_evals", "v_shape_seq+set",
                 "v_shape_confed-seq-only", "v_shape_empty", "v_origin_4octet", "t_delete_unknown", "t_delete_all", "t_add_duplicate",
                 "compares", "compares_exact", "table_changes", "pdu_announce-v4", "pdu_announce-v6", "pdu_withdraw-v4", "pdu_withdraw-v6",
-                "pdu_cache-response", "pdu_end-of-data", "pdu_cache-reset", "pdu_serial-notify", "pdu_error-report", "step_new-session",
+                "pdu_cache-response", "pdu_end-of-data", "pdu_near_miss_withdraw_of_pending",
+                "pdu_near_miss_of_announced_record", "step_cache-restart", "t_delete_near_miss", "api_near_miss_withdrawals", "pdu_cache-reset", "pdu_serial-notify", "pdu_error-report", "step_new-session",
                 "ev_connected", "ev_disconnected", "ev_lifetime_expiry", "router_reset_queries", "mgmt_delete_server", "mgmt_SoftReset",
                 "api_table_compares", "api_listrpki_compares", "api_route_verdicts_covered", "api_DeleteRpki"],
     min_nontrivial=100,
